@@ -1,14 +1,14 @@
 PROP = dict(
     properties="Properties/C03.v",
     harness_mods=["Harness/C03.v"],
-    runs=[dict(cmd="c03", quick=24, thorough=400)],
+    runs=[dict(cmd="c03", quick=20, thorough=400), dict(cmd="c03seek", quick=40, thorough=1500)],
     trusted_base=[
         "hand-written Gallina model coq/StateRoot/Model.v of the block's change map and mpt.MapToMPTBatch (tied by correspondence: the batch the real function builds from every block's change set)",
-        "the Go harness's flat range-query specification (harness/c03.go c03Range) against which FindStates/SeekStates/GetState/historic DAO Seek are compared",
+        "the Go harness's flat range-query specification (harness/c03.go c03Range; the same definition is evaluated in Coq as sm_range on every 'seek' case) against which FindStates/SeekStates/GetState, mpt.TrieStore.Seek driven directly and the historic DAO Seek are compared",
         "hook pkg/core/mpt/verif_hooks_c11.go (Batch.VerifC11BatchKV, read-only) and pkg/core/verif_hooks.go (VerifPersist/VerifPersistGC)",
     ],
     assumptions=[
-        "interface hypotheses on the abstract trie, quantified in each theorem statement and to be discharged by the C10 model coq/Trie: batch_content (PutBatch of a sorted duplicate-free batch changes the content as the batch says), root_canonical (NF_unique + NF preservation), proof_complete, proof_sound up to an exhibited double-SHA-256 collision",
+        "interface hypotheses on the abstract trie, quantified in each theorem statement and to be discharged by the C10 model coq/Trie: seek_spec (C10_seek_spec: TrieStore.Seek = range query on the entries), batch_content (PutBatch of a sorted duplicate-free batch changes the content as the batch says), root_canonical (NF_unique + NF preservation), proof_complete, proof_sound up to an exhibited double-SHA-256 collision",
         "historic execution = live execution additionally assumes that VM and native contracts are a function of (script, storage view, block context) - shared with C01; compared on generated read-only invocations only",
     ],
     modelled="put/delete/PutBatch, traversal and proofs of the concrete trie are not modelled here (C10); the chain-level claims (trie content at root_h = storage_h, reads, seeks, proofs, historic invocations) are carried by direct comparison on the real node at every retained height",
